@@ -53,6 +53,14 @@ def mutate(rng, data):
             x = rng.choice(m)
             v = rng.choice([0, 1, 2, 3, 4, 7, 100, 65536, 2 ** 31 - 1, 2 ** 31, 10 ** 12, -1])
             return data[:x.start(2)] + str(v).encode() + data[x.end(2):]
+    if r < 0.82 and len(lines) > 2:
+        # a header line (keyword with a number, or a YAML key with a number) given again further down with another number
+        cand = [i for i, l in enumerate(lines) if re.match(rb'^\s*(\[[^\]]+\]|#:\w+|[A-Za-z_]+:)\s*[-+0-9.]', l)]
+        if cand:
+            i = rng.choice(cand)
+            l2 = re.sub(rb'[-+]?[0-9]+', lambda m: str(rng.choice([0, 1, 2, 3, 4, 9, 100])).encode(), lines[i], count=1)
+            j = rng.randint(i + 1, len(lines))
+            return b'\n'.join(lines[:j] + [l2] + lines[j:])
     if r < 0.88 and data:
         b = bytearray(data)
         for _ in range(rng.randint(1, 4)):
@@ -110,7 +118,8 @@ def seeds_vnacal(rng, exe):
 
 
 YAMLS = [b'a: 1\nb: [x, y, {c: d}]\nn: ~\n', b'- 1\n- - 2\n  - 3\n- {k: v}\n', b'"quoted key": |\n  line1\n  line2\nempty: {}\nlist: []\n', b'scalar\n',
-         b'a: &x [1, 2]\nb: *x\n', b'? complex\n: value\n', b'a:\n  b:\n    c:\n      d: deep\n', b'---\nx: 1\n---\ny: 2\n', b'{a: 1, a: 2}\n', b'key: !!binary aGVsbG8=\n']
+         b'a: &x [1, 2]\nb: *x\n', b'? complex\n: value\n', b'a:\n  b:\n    c:\n      d: deep\n', b'---\nx: 1\n---\ny: 2\n', b'{a: 1, a: 2}\n', b'key: !!binary aGVsbG8=\n',
+         b'&a [*a]\n', b'&a {k: *a}\n', b'x: &a [1, [2, *a]]\n', b'a: &x {p: 1}\nb: {q: *x, r: [*x, *x]}\n', b'&a [&b [*a, *b]]\n']
 
 
 def run(chk):
@@ -185,6 +194,32 @@ def run(chk):
         for args in ('', ' 2.0', ' 2', ' Full', ' 50 50'):
             for tail in ('', '\n', '\n# Hz S RI R 50\n[Number of Ports] 1\n[Number of Frequencies] 1\n[Network Data]\n1e9 0.25 0.5\n[End]\n'):
                 inputs.append(('vd', rng.choice(['x.ts', 'x.s1p', 'x.s2p']), (kw + args + tail).encode()))
+    # Touchstone 1 noise blocks of 0..3 lines after the network data: whole, cut at every byte of the block, followed by text that is not a number
+    head_ = '# GHz S MA R 50\n1 .9 -10 2 80 .05 30 .6 -20\n2 .8 -20 1.8 70 .06 25 .55 -25\n3 .7 -30 1.6 60 .07 20 .5 -30\n'
+    for k_ in range(4):
+        blk = ''.join('%g %g .4 %d 0.3\n' % (1 + k2, 0.5 + 0.1 * k2, 100 + 10 * k2) for k2 in range(k_))
+        whole = (head_ + blk).encode()
+        inputs.append(('vd', 'x.s2p', whole))
+        for cut in range(len(head_), len(whole)):
+            inputs.append(('vd', 'x.s2p', whole[:cut]))
+        for tail in ('! end\n', '[End]\n', 'abc\n', '1\n', '1 2 3 4\n', '4 .6 -40 1.4 50 .08 15 .45 -35\n'):
+            inputs.append(('vd', 'x.s2p', whole + tail.encode()))
+    # every Touchstone 2 / NPD header keyword given a second time with another value, after each later header line
+    for name, data in [x for x in vd_seeds if x[0] in ('x.ts', 'x.npd')][:3 if quick else 12]:
+        ls_ = data.split(b'\n')
+        hdr = [i for i, l in enumerate(ls_) if re.match(rb'^\s*(\[[^\]]+\]|#:\w+)', l)]
+        for i in hdr:
+            if not re.search(rb'[0-9]', ls_[i]):
+                continue
+            for v_ in (b'1', b'3', b'7'):
+                l2 = re.sub(rb'(\]|#:\w+)(\s*)[-+]?[0-9]+', lambda m: m.group(1) + m.group(2) + v_, ls_[i], count=1)
+                for j in [q + 1 for q in hdr if q >= i][:6]:
+                    inputs.append(('vd', name, b'\n'.join(ls_[:j] + [l2] + ls_[j:])))
+    # a .vnacal whose properties contain an alias to an enclosing node
+    for name, data in cal_seeds[:2]:
+        if b'properties:' in data:
+            inputs.append(('cal', name, data.replace(b'properties:', b'properties: &self\n  loop: *self\n  more:', 1)))
+            inputs.append(('cal', name, re.sub(rb'(?m)^properties:.*$', b'properties: &p [*p]', data, count=1)))
     for _ in range(nmut * 4):
         inputs.append((rng.choice(['vd', 'cal', 'yaml']), rng.choice(['x.npd', 'x.ts', 'x.s3p']), bytes(rng.randrange(256) for _ in range(rng.randint(0, 60)))))
     good_npd = '#NPD\n#:version 1.0\n#:ports 1\n#:frequencies 1\n#:parameters Sri\n#:z0 50 0j\n1e9 0.25 0.5\n'.encode().hex()
